@@ -71,6 +71,11 @@ CHECKS = {
          'Projects are all sets of up to 2 (thorough 3 over a 14-feature core) link-producing features out of 31 (inheritance across modules, overrides, inherited docstrings with cross-references, summary cross-references, xrefs to every object kind, annotation/default/constant links, generic bases, constructors, nested classes, re-export, duplicates and subclasses of duplicates, private and hidden bases/modules/members, zope, properties, overloads, deprecation, sections, documented-only attributes, a module named like its root, non-ASCII names, two roots, a 52-module package) x up to 9 configurations (3 themes, sidebar depth 1-3, no sidebar, toc depth 0, source links). Every project is run through the real driver and the whole output tree is crawled: each relative href/src must name a written file and an existing id/name; all-documents url fields likewise; every visible module/class must have its page at obj.url and every visible function/variable its anchor. Violations are classified by clause, link producer, target category and source-page class.',
          'Trusted: html.parser based extraction; percent-decoding of hrefs as browsers do. Absolute URLs and intersphinx links are not followed.',
          'DESIGN.md section 5, C11'),
+ 'C12': ('exploration',
+         'exhaustive enumeration of (project, object, rule form) as full driver runs; the whole output tree is searched for traces of the hidden object and for unmarked listing entries of the private object',
+         'For each of 30 single-feature projects and each visible object of it, the real driver is run with --privacy HIDDEN:<exact name>, HIDDEN:<pattern matching exactly it> and PRIVATE:<name> (thorough: PRIVATE by pattern, sidebar depth 3, and all pairs of objects hidden together on 12 projects). Hidden: for the object and everything in its contents tree there must be no page, no id/name, no href that resolves to its page or anchor anywhere, no all-documents entry, no lunr document in either search index, no inventory line - and the rest of the site must stay link-consistent. Private: the object is rendered and every member-table row, member-detail block, sidebar item, module-index item and search document for it carries the private marker (extracted with an expat DOM walk).',
+         'Trusted: the listing extraction (table.children rows, member divs, sidebar/module-index li, all-documents li); plain-text mentions are allowed.',
+         'DESIGN.md section 5, C12'),
 }
 
 
